@@ -48,7 +48,8 @@ MANIFEST = dict(
          'implementation, known finding) and the exact set of calls an escape can come from; a request rejected before dispatch is '
          'answered with the rejection status and a fault and leaves the state unchanged; a regular response is only given if all '
          'stages succeeded; the deferred worker of the consumer endpoint survives every handler exception, hands every queued '
-         'request to its handler and drains a full queue (no blocked on_post); the chunked reader terminates on every byte string '
+         'request to its handler and drains a full queue (no blocked on_post); on a persistent connection a request with unreadable '
+         'framing is answered 400 and ends the connection (nothing behind it is executed); the chunked reader terminates on every byte string '
          '(C17); every parser site that sees peer data has resolve_entities / network / DTD loading off (generated, decide). The '
          'skeleton is compared with the real do_post/do_get/do_POST/do_GET/_read_queue by exhaustive fault injection.',
     note='PARTIAL by nature: libxml2 (parsing, entity handling, termination), lxml schema validation and the bodies of the '
